@@ -6,6 +6,7 @@ import (
 	"fmt"
 	"io"
 	"reflect"
+	"runtime"
 	"strings"
 	"time"
 
@@ -134,7 +135,39 @@ func exerciseRealtime(r *gtfs.Realtime) {
 	callStringers(reflect.ValueOf(r), map[uintptr]bool{}, 0)
 }
 
+// c05Giant parses one giant (but valid) feed, once at the worker's GOMAXPROCS and once with a single
+// processor: code paths that only exist beyond tens of thousands of rows or on one-CPU hosts.
+func c05Giant(t *sim.T) *sim.Violation {
+	m := gen.GenStatic(t, gen.GiantStaticCfg(t))
+	z := m.Feed.Zip(gen.ZipOpts{})
+	t.Logf("giant feed: %s (%d bytes)", m.Summary(), len(z))
+	t.Probe("giant-feed")
+	for _, procs := range []int{0, 1} {
+		prev := 0
+		if procs > 0 {
+			prev = runtime.GOMAXPROCS(procs)
+			t.Logf("GOMAXPROCS=%d", procs)
+		}
+		s, err, pv, stack := parseST(z, gtfs.ParseStaticOptions{})
+		if procs > 0 {
+			runtime.GOMAXPROCS(prev)
+		}
+		if pv != nil {
+			return crash("ParseStatic on a giant feed", pv, stack)
+		}
+		if err == nil && s != nil && !acyclic(s) {
+			return &sim.Violation{Class: "non-termination", Signature: "C05:non-termination:Stop.Root", Detail: "cycle in a giant feed"}
+		}
+	}
+	t.Case = sim.HashStrings("giant", fmt.Sprint(sim.HashBytes(z)))
+	t.Nontriv = true
+	return nil
+}
+
 func runC05(t *sim.T, tier string) *sim.Violation {
+	if tier == "thorough" && t.Chance(1, 20000) {
+		return c05Giant(t)
+	}
 	switch t.Weighted(4, 4, 2, 3) {
 	case 0:
 		return c05Static(t)
